@@ -209,6 +209,11 @@ def binop(op, a, b):
         return Opaque("arith", getattr(a, "prov", ()) + getattr(b, "prov", ()))
     if isinstance(op, ast.Mult) and isinstance(a, (list, tuple)) and isinstance(b, NRows):
         return a * b.n
+    if isinstance(a, NRows) and isinstance(b, NRows) and isinstance(op, ast.Div):
+        # a ratio of two (positive, unknown) table sizes: some positive number
+        W = __import__("cnvlint.absval", fromlist=["W"]).W
+        W.fresh_id = getattr(W, "fresh_id", 0) + 1
+        return Term.sym(f"rows_ratio_{W.fresh_id}", 0, float("inf"), positive=True)
     if isinstance(a, NRows) or isinstance(b, NRows):
         return Opaque("table-size arithmetic")
     if type(op) in (ast.BitAnd, ast.BitOr, ast.BitXor):
